@@ -17,8 +17,12 @@ def main():
     checks = []
     na = []
     engines = []
+    accepted = set(open(os.path.join(HERE, "claimed.txt")).read().split())
     for p in props:
         pid = p["id"]
+        if pid not in accepted:
+            na.append({"property_id": pid, "reason": PENDING_REASON.get(pid, "not claimed yet: model, proofs and correspondence engine for this property are still being built or reviewed at this commit (see DESIGN.md section 5 for the plan)")})
+            continue
         try:
             mod = importlib.import_module("props." + pid.lower())
         except ModuleNotFoundError:
